@@ -605,7 +605,9 @@ func (t *Dense) Zero() {
 	if t.IsMasked() {
 		t.ResetMask()
 	}
-	t.array.Zero()
+	if !t.IsMaterializable() {
+		t.array.Zero()
+	}
 }
 
 func (t *Dense) Mask() []bool { return t.mask }
